@@ -3,21 +3,32 @@
     "The same file may be included any number of times along different branches; any chain of
      includes that returns to a file already being expanded raises 'Include dependency cycle'
      instead of recursing without bound; relative names are resolved against the directory of the
-     including file."
+     including file.  'include scope' splices the named Python-level scope (optionally one sub-path
+     of it) the same way."
 
   Model: Phil/Include.lean (`expandFile` = parse(file_name=…, process_includes=True,
   include_stack=…), `processIncludes` = scope.process_includes, `expand` = the top-level call) over
-  an abstract file system.  Property theorems only; lemmas and the auxiliary definitions
-  (`includeHere`, `NoInclude`, `resetTmpl`, `AllTmplZero`, `includeTarget`, `includeTargets`,
-  `Includes`, `IncWalk`, `ParseFuelOK`, `ParseNoCycleErr`, `FS.keys`, `FS.numFiles`, `plainComp`)
-  are in Phil/Proofs/IncludeLemmas.lean.  All statements hold for every file system, stack, fuel and
-  object list (no size bound).
+  an environment `env : IncEnv`: an abstract file system `env.fs`, the table `env.imports` of the
+  importable Python-level scopes (python path ↦ text) and the current directory `env.cwd`.
+  Property theorems only; lemmas and the auxiliary definitions (`includeHere`, `includeScope`,
+  `selectSub`, `splice`, `NoInclude`, `resetTmpl`, `AllTmplZero`, `includeTarget`, `scopeTarget`,
+  `includeTargets`, `scopeTargets`, `ReachFile`, `Includes`, `IncWalk`, `ParseFuelOK`,
+  `ImportsParseFuelOK`, `ImportsRanked`, `importsRankedB`, `ParseNoCycleErr`,
+  `ImportsParseNoCycleErr`, `FS.keys`, `FS.numFiles`, `plainComp`) are in
+  Phil/Proofs/IncludeLemmas.lean.  All statements hold for every environment, stack, fuel and object
+  list (no size bound).
 
-  Two hypotheses refer to the *parser* rather than to include processing, because `parseObjs` is a
-  fuel-driven model of its own and has its own error sites:
-    * `ParseFuelOK fs`     — no file of `fs` makes `parseObjs` return `outOfFuel`;
-    * `ParseNoCycleErr fs` — no file of `fs` makes `parseObjs` return the include-cycle error
-                             (the parser has no such error site; not proved here).
+  Hypotheses that refer to the *parser* rather than to include processing (`parseObjs` is a
+  fuel-driven model of its own and has its own error sites):
+    * `ParseFuelOK env.fs` / `ImportsParseFuelOK env.imports` — no file / imported scope makes
+      `parseObjs` return `outOfFuel`;
+    * `ParseNoCycleErr env.fs` / `ImportsParseNoCycleErr env.imports` — … return the include-cycle
+      error (the parser has no such error site; not proved here).
+  Hypothesis on the imported scopes, needed for termination only:
+    * `ImportsRanked env` — imported scopes refer only to imported scopes of higher rank (there is
+      no cycle detection for scopes: Python itself recurses without bound on `a ↦ "include scope a"`,
+      and the model answers `outOfFuel`, see the example at the end).
+  With `env.imports = []` the statements of the file-only model are recovered (`…_files`).
 -/
 import Phil.Proofs.IncludeLemmas
 set_option linter.unusedVariables false
@@ -28,25 +39,25 @@ open Phil
 
 /-- **Cycle refusal.**  A readable, parseable file that is already on the include stack is refused
     with the cycle error, whatever it contains and whatever fuel is left (≥ 1). -/
-theorem cycle_refused (fs : FS) (fuel : Nat) (path : Path) (stack : List Path) (text : Str)
-    (objs : List Obj) (hin : path ∈ stack) (hread : fs.read path = some text)
+theorem cycle_refused (env : IncEnv) (fuel : Nat) (path : Path) (stack : List Path) (text : Str)
+    (objs : List Obj) (hin : path ∈ stack) (hread : env.fs.read path = some text)
     (hparse : parseObjs text = .ok objs) :
-    expandFile fs (fuel + 1) path stack = .error (.runtime "include_cycle" none) :=
-  Phil.cycle_refused fs fuel path stack text objs hin hread hparse
+    expandFile env (fuel + 1) path stack = .error (.runtime "include_cycle" none) :=
+  Phil.cycle_refused env fuel path stack text objs hin hread hparse
 
 /-- An include statement whose name resolves to the including file itself or to a file further up
     the stack makes the expansion of the including file fail with the cycle error (objects before
     the statement are include-free; anything may follow it). -/
-theorem back_edge_is_cycle_error (fs : FS) (f : Nat) (a q : Path) (stack : List Path) (t tq : Str)
+theorem back_edge_is_cycle_error (env : IncEnv) (f : Nat) (a q : Path) (stack : List Path) (t tq : Str)
     (pre post oq : List Obj) (i : Obj) (n : Str)
-    (hr : fs.read a = some t) (hp : parseObjs t = .ok (pre ++ i :: post)) (ha : a ∉ stack)
+    (hr : env.fs.read a = some t) (hp : parseObjs t = .ok (pre ++ i :: post)) (ha : a ∉ stack)
     (hpre : NoInclude pre = true) (hi : includeTarget i = some n)
     (hq : resolvePath a.dropLast n = q) (hmem : q ∈ stack ++ [a])
-    (hrq : fs.read q = some tq) (hpq : parseObjs tq = .ok oq) :
-    expandFile fs (f + 2) a stack = .error (.runtime "include_cycle" none) :=
-  expandFile_back_edge fs f a q stack t tq pre post oq i n hr hp ha hpre hi hq hmem hrq hpq
+    (hrq : env.fs.read q = some tq) (hpq : parseObjs tq = .ok oq) :
+    expandFile env (f + 2) a stack = .error (.runtime "include_cycle" none) :=
+  expandFile_back_edge env f a q stack t tq pre post oq i n hr hp ha hpre hi hq hmem hrq hpq
 
-/-! ### 2. termination: the fuel `fs.length + 1` is never exhausted -/
+/-! ### 2. termination: the fuel `(fs.length + 1) * (imports.length + 1) + 1` is never exhausted -/
 
 /-- **Counting lemma.**  A duplicate-free list all of whose elements lie in `k` has at most as many
     elements as `k` has distinct ones. -/
@@ -54,46 +65,82 @@ theorem nodup_subset_length_le_distinct {α : Type} [BEq α] [LawfulBEq α] (l k
     (hnd : l.Nodup) (hsub : ∀ x ∈ l, x ∈ k) : l.length ≤ k.eraseDups.length :=
   nodup_subset_length_le l k.eraseDups hnd (fun x hx => List.mem_eraseDups.mpr (hsub x hx))
 
-/-- **Fuel adequacy (`expandFile`).**  With a duplicate-free stack of existing files and
-    `fuel + |stack| ≥ (number of distinct file names) + 1`, `expandFile` never reports `outOfFuel`.
-    (`ParseFuelOK`: the parser's own fuel is a separate matter.) -/
-theorem expand_never_out_of_fuel (fs : FS) (hpf : ParseFuelOK fs) (fuel : Nat) (path : Path)
-    (stack : List Path) (hnd : stack.Nodup) (hsub : ∀ p ∈ stack, p ∈ fs.map (·.1))
-    (hb : fuel + stack.length ≥ (fs.map (·.1)).eraseDups.length + 1) :
-    expandFile fs fuel path stack ≠ .error .outOfFuel :=
-  expandFile_ne_outOfFuel fs hpf fuel path stack hnd hsub hb
+/-- **Fuel adequacy (`expandFile`).**  `M = imports.length + 1`.  With a duplicate-free stack of
+    existing files and `fuel + |stack| * M ≥ (number of distinct file names) * M + 1`, `expandFile`
+    never reports `outOfFuel`: the stack holds distinct files, and between two file pushes a chain
+    hops through at most `imports.length` imported scopes because their ranks increase. -/
+theorem expand_never_out_of_fuel (env : IncEnv) (hpf : ParseFuelOK env.fs)
+    (hpi : ImportsParseFuelOK env.imports) (hrk : ImportsRanked env) (fuel : Nat) (path : Path)
+    (stack : List Path) (hnd : stack.Nodup) (hsub : ∀ p ∈ stack, p ∈ env.fs.map (·.1))
+    (hb : fuel + stack.length * (env.imports.length + 1)
+            ≥ (env.fs.map (·.1)).eraseDups.length * (env.imports.length + 1) + 1) :
+    expandFile env fuel path stack ≠ .error .outOfFuel :=
+  expandFile_ne_outOfFuel env hpf hpi hrk fuel path stack hnd hsub hb
 
-/-- **Fuel adequacy (`processIncludes`).**  The same bound: entering a file costs one unit of fuel
-    and pushes one file on the stack, so `fuel + |stack|` is invariant; at `fuel = 0` the stack would
-    have to hold more files than exist. -/
-theorem processIncludes_never_out_of_fuel (fs : FS) (hpf : ParseFuelOK fs) (fuel : Nat)
+/-- **Fuel adequacy (`processIncludes`)** on a list whose followed `include scope` statements name
+    imports of rank ≥ `k` (`k = 0`: any list, e.g. the objects of a file).  Entering a file costs one
+    unit of fuel, pushes one file and resets `k`; entering an imported scope of rank `r` costs one
+    unit and raises `k` to `r + 1`: `fuel + |stack| * M + k` never decreases. -/
+theorem processIncludes_never_out_of_fuel (env : IncEnv) (hpf : ParseFuelOK env.fs)
+    (hpi : ImportsParseFuelOK env.imports) (rank : Str → Nat)
+    (hr1 : ∀ p text, env.imported p = some text → rank p < env.imports.length)
+    (hr2 : ∀ p text src, env.imported p = some text → parseObjs text = .ok src →
+      ∀ q ∈ scopeTargets src, ∀ text', env.imported q = some text' → rank p < rank q)
+    (fuel : Nat) (refdir : Path) (stack : List Path) (objs : List Obj) (k : Nat) (hnd : stack.Nodup)
+    (hsub : ∀ p ∈ stack, p ∈ env.fs.map (·.1)) (hk : k ≤ env.imports.length)
+    (hA : ∀ p ∈ scopeTargets objs, ∀ text, env.imported p = some text → k ≤ rank p)
+    (hb : fuel + stack.length * (env.imports.length + 1) + k
+            ≥ (env.fs.map (·.1)).eraseDups.length * (env.imports.length + 1) + env.imports.length + 1) :
+    processIncludes env fuel refdir stack objs ≠ .error .outOfFuel :=
+  processIncludes_ne_outOfFuel env hpf hpi rank hr1 hr2 fuel refdir stack objs k hnd hsub hk hA hb
+
+/-- **Totality of `expand`.**  For every environment whose imported scopes are ranked (duplicate
+    keys allowed) and every root, the include recursion ends within the fuel that `expand` provides. -/
+theorem expand_total (env : IncEnv) (hpf : ParseFuelOK env.fs) (hpi : ImportsParseFuelOK env.imports)
+    (hrk : ImportsRanked env) (root : Path) :
+    expand env root ≠ .error .outOfFuel :=
+  expand_ne_outOfFuel env hpf hpi hrk root
+
+/-- the position in `env.imports` is a ranking: the decidable check `importsRankedB` suffices -/
+theorem importsRanked_of_check (env : IncEnv) (h : importsRankedB env = true) : ImportsRanked env :=
+  importsRanked_of_B env h
+
+/-- **File-only case** (no importable scopes): the bound of the file-only model,
+    `fuel + |stack| ≥ (number of distinct file names) + 1`, with no hypothesis besides the parser's. -/
+theorem expand_never_out_of_fuel_files (env : IncEnv) (hi : env.imports = []) (hpf : ParseFuelOK env.fs)
+    (fuel : Nat) (path : Path)
+    (stack : List Path) (hnd : stack.Nodup) (hsub : ∀ p ∈ stack, p ∈ env.fs.map (·.1))
+    (hb : fuel + stack.length ≥ (env.fs.map (·.1)).eraseDups.length + 1) :
+    expandFile env fuel path stack ≠ .error .outOfFuel :=
+  expandFile_ne_outOfFuel_files env hi hpf fuel path stack hnd hsub hb
+
+theorem processIncludes_never_out_of_fuel_files (env : IncEnv) (hi : env.imports = [])
+    (hpf : ParseFuelOK env.fs) (fuel : Nat)
     (refdir : Path) (stack : List Path) (objs : List Obj) (hnd : stack.Nodup)
-    (hsub : ∀ p ∈ stack, p ∈ fs.map (·.1))
-    (hb : fuel + stack.length ≥ (fs.map (·.1)).eraseDups.length + 1) :
-    processIncludes fs fuel refdir stack objs ≠ .error .outOfFuel :=
-  processIncludes_ne_outOfFuel fs hpf fuel refdir stack objs hnd hsub hb
+    (hsub : ∀ p ∈ stack, p ∈ env.fs.map (·.1))
+    (hb : fuel + stack.length ≥ (env.fs.map (·.1)).eraseDups.length + 1) :
+    processIncludes env fuel refdir stack objs ≠ .error .outOfFuel :=
+  processIncludes_ne_outOfFuel_files env hi hpf fuel refdir stack objs hnd hsub hb
 
-/-- **Totality of `expand`.**  For every file system (duplicate keys allowed) and every root, the
-    include recursion ends within the fuel `fs.length + 1` that `expand` provides. -/
-theorem expand_total (fs : FS) (hpf : ParseFuelOK fs) (root : Path) :
-    expand fs root ≠ .error .outOfFuel :=
-  expand_ne_outOfFuel fs hpf root
+theorem expand_total_files (env : IncEnv) (hi : env.imports = []) (hpf : ParseFuelOK env.fs)
+    (root : Path) : expand env root ≠ .error .outOfFuel :=
+  expand_ne_outOfFuel_files env hi hpf root
 
 /-! ### 3. without include statements nothing changes -/
 
 /-- **Identity on include-free lists.**  If no enabled definition named `include` occurs (at top
-    level or inside enabled scopes), processing succeeds — for every fuel, reference directory and
-    stack — and returns the objects with every enabled scope rebuilt with `tmpl = 0`. -/
-theorem no_include_identity (fs : FS) (fuel : Nat) (refdir : Path) (stack : List Path)
+    level or inside enabled scopes), processing succeeds — for every environment, fuel, reference
+    directory and stack — and returns the objects with every enabled scope rebuilt with `tmpl = 0`. -/
+theorem no_include_identity (env : IncEnv) (fuel : Nat) (refdir : Path) (stack : List Path)
     (objs : List Obj) (h : NoInclude objs = true) :
-    processIncludes fs fuel refdir stack objs = .ok (resetTmpl objs) :=
-  Phil.no_include_identity fs fuel refdir stack objs h
+    processIncludes env fuel refdir stack objs = .ok (resetTmpl objs) :=
+  Phil.no_include_identity env fuel refdir stack objs h
 
 /-- … and exactly the given objects when the enabled scopes already have `tmpl = 0` (parser output). -/
-theorem no_include_identity_tmpl0 (fs : FS) (fuel : Nat) (refdir : Path) (stack : List Path)
+theorem no_include_identity_tmpl0 (env : IncEnv) (fuel : Nat) (refdir : Path) (stack : List Path)
     (objs : List Obj) (hn : NoInclude objs = true) (hz : AllTmplZero objs = true) :
-    processIncludes fs fuel refdir stack objs = .ok objs :=
-  no_include_identity' fs fuel refdir stack objs hn hz
+    processIncludes env fuel refdir stack objs = .ok objs :=
+  no_include_identity' env fuel refdir stack objs hn hz
 
 /-! ### textual inlining -/
 
@@ -101,39 +148,39 @@ theorem no_include_identity_tmpl0 (fs : FS) (fuel : Nat) (refdir : Path) (stack 
     objects `pre`, an include statement `i` with file name `n`, and further objects `post`, the
     statement is replaced by the expansion of `resolvePath (directory of a) n`, performed with `a`
     pushed on the stack; errors of that expansion propagate. -/
-theorem include_inlines (fs : FS) (f : Nat) (a : Path) (stack : List Path) (t : Str)
+theorem include_inlines (env : IncEnv) (f : Nat) (a : Path) (stack : List Path) (t : Str)
     (pre post : List Obj) (i : Obj) (n : Str)
-    (hr : fs.read a = some t) (hp : parseObjs t = .ok (pre ++ i :: post)) (ha : a ∉ stack)
+    (hr : env.fs.read a = some t) (hp : parseObjs t = .ok (pre ++ i :: post)) (ha : a ∉ stack)
     (hpre : NoInclude pre = true) (hi : includeTarget i = some n) :
-    expandFile fs (f + 1) a stack =
-      match expandFile fs f (resolvePath a.dropLast n) (stack ++ [a]) with
+    expandFile env (f + 1) a stack =
+      match expandFile env f (resolvePath a.dropLast n) (stack ++ [a]) with
       | .error e => .error e
-      | .ok l => (processIncludes fs f a.dropLast (stack ++ [a]) post).map
+      | .ok l => (processIncludes env f a.dropLast (stack ++ [a]) post).map
                     (fun r => resetTmpl pre ++ (l ++ r)) :=
-  expandFile_split fs f a stack t pre post i n hr hp ha hpre hi
+  expandFile_split env f a stack t pre post i n hr hp ha hpre hi
 
 /-- processing is compositional over concatenation of object lists -/
-theorem processIncludes_append (fs : FS) (fuel : Nat) (refdir : Path) (stack : List Path)
+theorem processIncludes_append (env : IncEnv) (fuel : Nat) (refdir : Path) (stack : List Path)
     (a b : List Obj) :
-    processIncludes fs fuel refdir stack (a ++ b) =
-      match processIncludes fs fuel refdir stack a with
+    processIncludes env fuel refdir stack (a ++ b) =
+      match processIncludes env fuel refdir stack a with
       | .error e => .error e
-      | .ok l => (processIncludes fs fuel refdir stack b).map (fun r => l ++ r) :=
-  Phil.processIncludes_append fs fuel refdir stack a b
+      | .ok l => (processIncludes env fuel refdir stack b).map (fun r => l ++ r) :=
+  Phil.processIncludes_append env fuel refdir stack a b
 
 /-! ### 4. the diamond -/
 
 /-- **Diamond.**  A root whose text consists of two include statements naming the same include-free
     leaf file expands to the leaf's objects twice; no cycle error. -/
-theorem diamond_ok (fs : FS) (r l : Path) (tr tl : Str) (i1 i2 : Obj) (n1 n2 : Str)
+theorem diamond_ok (env : IncEnv) (r l : Path) (tr tl : Str) (i1 i2 : Obj) (n1 n2 : Str)
     (objsL : List Obj)
-    (hr : fs.read r = some tr) (hpr : parseObjs tr = .ok [i1, i2])
+    (hr : env.fs.read r = some tr) (hpr : parseObjs tr = .ok [i1, i2])
     (h1 : includeTarget i1 = some n1) (h2 : includeTarget i2 = some n2)
     (hn1 : resolvePath r.dropLast n1 = l) (hn2 : resolvePath r.dropLast n2 = l)
-    (hl : fs.read l = some tl) (hpl : parseObjs tl = .ok objsL)
+    (hl : env.fs.read l = some tl) (hpl : parseObjs tl = .ok objsL)
     (hni : NoInclude objsL = true) (hne : l ≠ r) :
-    expand fs r = .ok (resetTmpl objsL ++ resetTmpl objsL) :=
-  Phil.diamond_ok fs r l tr tl i1 i2 n1 n2 objsL hr hpr h1 h2 hn1 hn2 hl hpl hni hne
+    expand env r = .ok (resetTmpl objsL ++ resetTmpl objsL) :=
+  Phil.diamond_ok env r l tr tl i1 i2 n1 n2 objsL hr hpr h1 h2 hn1 hn2 hl hpl hni hne
 
 /-! ### 5. path resolution -/
 
@@ -167,43 +214,224 @@ theorem normComponents_dotdot (cs : List Str) (acc : Path) :
 /-! ### 6. the cycle error and the include graph -/
 
 /-- **Soundness of the cycle error.**  If the expansion of `path` with stack `stack` ends with the
-    cycle error, then a chain of include statements leads from `path` to a file `p` that is on its
-    own stack `st` at that moment; `st` extends `stack`. -/
-theorem cycle_error_sound (fs : FS) (hpc : ParseNoCycleErr fs) (fuel : Nat) (path : Path)
-    (stack : List Path)
-    (h : expandFile fs fuel path stack = .error (.runtime "include_cycle" none)) :
-    ∃ p st, IncWalk fs path stack p st ∧ stack <+: st ∧ p ∈ st := by
-  obtain ⟨p, st, hw, hm⟩ := Phil.cycle_error_sound fs hpc fuel path stack h
+    cycle error, then a chain of include statements (`Includes`: an `include file` statement, or
+    `include scope` statements leading to one) leads from `path` to a file `p` that is on its own
+    stack `st` at that moment; `st` extends `stack`. -/
+theorem cycle_error_sound (env : IncEnv) (hpc : ParseNoCycleErr env.fs)
+    (hpi : ImportsParseNoCycleErr env.imports) (fuel : Nat) (path : Path) (stack : List Path)
+    (h : expandFile env fuel path stack = .error (.runtime "include_cycle" none)) :
+    ∃ p st, IncWalk env path stack p st ∧ stack <+: st ∧ p ∈ st := by
+  obtain ⟨p, st, hw, hm⟩ := Phil.cycle_error_sound env hpc hpi fuel path stack h
   exact ⟨p, st, hw, hw.prefix, hm⟩
 
 /-- The same without any hypothesis on the parser: the chain ends at a file on its own stack, or at
-    a file whose parser outcome is itself the cycle error. -/
-theorem cycle_error_sound_gen (fs : FS) (fuel : Nat) (path : Path) (stack : List Path)
-    (h : expandFile fs fuel path stack = .error (.runtime "include_cycle" none)) :
-    ∃ p st, IncWalk fs path stack p st ∧ stack <+: st ∧
-      (p ∈ st ∨ ∃ t, fs.read p = some t ∧ parseObjs t = .error (.runtime "include_cycle" none)) := by
-  obtain ⟨p, st, hw, hm⟩ := Phil.cycle_error_sound_gen fs fuel path stack h
-  exact ⟨p, st, hw, hw.prefix, hm⟩
+    a file whose parser outcome is itself the cycle error — or some imported scope's is. -/
+theorem cycle_error_sound_gen (env : IncEnv) (fuel : Nat) (path : Path) (stack : List Path)
+    (h : expandFile env fuel path stack = .error (.runtime "include_cycle" none)) :
+    (∃ pt ∈ env.imports, parseObjs pt.2 = .error (.runtime "include_cycle" none)) ∨
+    ∃ p st, IncWalk env path stack p st ∧ stack <+: st ∧
+      (p ∈ st ∨ ∃ t, env.fs.read p = some t ∧ parseObjs t = .error (.runtime "include_cycle" none)) := by
+  rcases Phil.cycle_error_sound_gen env fuel path stack h with hx | ⟨p, st, hw, hm⟩
+  · exact .inl hx
+  · exact .inr ⟨p, st, hw, hw.prefix, hm⟩
 
 /-- **Every cycle is detected (1).**  If an expansion succeeds, no chain of include statements
-    starting from it reaches a file that is on its own stack. -/
-theorem ok_no_cycle (fs : FS) (a : Path) (st : List Path) (p : Path) (st' : List Path)
-    (hw : IncWalk fs a st p st') (fuel : Nat) (res : List Obj)
-    (h : expandFile fs fuel a st = .ok res) : p ∉ st' :=
-  Phil.ok_no_cycle fs hw fuel res h
+    starting from it — through files and imported scopes — reaches a file that is on its own stack. -/
+theorem ok_no_cycle (env : IncEnv) (a : Path) (st : List Path) (p : Path) (st' : List Path)
+    (hw : IncWalk env a st p st') (fuel : Nat) (res : List Obj)
+    (h : expandFile env fuel a st = .ok res) : p ∉ st' :=
+  Phil.ok_no_cycle env hw fuel res h
 
 /-- **Every cycle is detected (2).**  If some chain of include statements from the root returns to
     a file of the chain, `expand` ends with an error, and that error is not `outOfFuel`: the
     recursion is cut, it does not run until the fuel is gone.  (The error is the cycle error unless
     an earlier statement fails first, e.g. a missing file — as in the implementation.) -/
-theorem cycle_detected (fs : FS) (hpf : ParseFuelOK fs) (root p : Path) (st : List Path)
-    (hw : IncWalk fs root [] p st) (hp : p ∈ st) :
-    ∃ e, expand fs root = .error e ∧ e ≠ .outOfFuel := by
-  obtain ⟨e, he⟩ := Phil.cycle_detected fs root p st hw hp
+theorem cycle_detected (env : IncEnv) (hpf : ParseFuelOK env.fs) (hpi : ImportsParseFuelOK env.imports)
+    (hrk : ImportsRanked env) (root p : Path) (st : List Path)
+    (hw : IncWalk env root [] p st) (hp : p ∈ st) :
+    ∃ e, expand env root = .error e ∧ e ≠ .outOfFuel := by
+  obtain ⟨e, he⟩ := Phil.cycle_detected env root p st hw hp
   refine ⟨e, he, ?_⟩
   intro h
   subst h
-  exact expand_total fs hpf root he
+  exact expand_total env hpf hpi hrk root he
+
+theorem cycle_detected_files (env : IncEnv) (hi : env.imports = []) (hpf : ParseFuelOK env.fs)
+    (root p : Path) (st : List Path) (hw : IncWalk env root [] p st) (hp : p ∈ st) :
+    ∃ e, expand env root = .error e ∧ e ≠ .outOfFuel :=
+  cycle_detected env hpf (hi ▸ importsParseFuelOK_nil) (importsRanked_nil env hi) root p st hw hp
+
+/-! ### 7. `include scope`: the named Python-level scope is spliced the same way -/
+
+/-- what `scopeTarget` recognises, two words: an enabled definition `include scope <p>` without `$` -/
+theorem scopeTarget_two_words (m : Meta) (w1 w2 : Word) (hd : m.disabled = false)
+    (hn : m.name = "include".toList) (hdol : containsDollar [w1, w2] = false)
+    (hty : lower w1.value = "scope".toList) :
+    scopeTarget (.defn m [w1, w2]) = some (w2.value, none) := by
+  simp only [scopeTarget, hd, hn, hdol, hty]
+  rfl
+
+/-- … three words: `include scope <p> <q>` -/
+theorem scopeTarget_three_words (m : Meta) (w1 w2 w3 : Word) (hd : m.disabled = false)
+    (hn : m.name = "include".toList) (hdol : containsDollar [w1, w2, w3] = false)
+    (hty : lower w1.value = "scope".toList) :
+    scopeTarget (.defn m [w1, w2, w3]) = some (w2.value, some w3.value) := by
+  simp only [scopeTarget, hd, hn, hdol, hty]
+  rfl
+
+/-- **Splicing law.**  An enabled statement `include scope p` (two words, no `$`) naming a known
+    import whose text parses to `src` is replaced by the result of processing `src`'s own includes
+    — one unit of fuel less, reference directory `env.cwd`, the *same* include stack — spliced before
+    the processed rest of the list (`splice`: the first failing part's error, else concatenation). -/
+theorem include_scope_inlines (env : IncEnv) (f : Nat) (refdir : Path) (stack : List Path) (o : Obj)
+    (rest : List Obj) (p text : Str) (src : List Obj)
+    (ho : scopeTarget o = some (p, none)) (hi : env.imported p = some text)
+    (hp : parseObjs text = .ok src) :
+    processIncludes env (f + 1) refdir stack (o :: rest) =
+      splice (processIncludes env f env.cwd stack src)
+        (processIncludes env (f + 1) refdir stack rest) := by
+  rw [processIncludes_scope_cons env (f + 1) refdir stack o rest p none ho,
+    includeScope_known env f stack p none _ text src hi hp]
+  cases processIncludes env f env.cwd stack src <;> rfl
+
+/-- … the result is `expanded ++ rest'` exactly when both parts succeed -/
+theorem include_scope_inlines_ok (env : IncEnv) (f : Nat) (refdir : Path) (stack : List Path) (o : Obj)
+    (rest : List Obj) (p text : Str) (src : List Obj)
+    (ho : scopeTarget o = some (p, none)) (hi : env.imported p = some text)
+    (hp : parseObjs text = .ok src) (res : List Obj) :
+    processIncludes env (f + 1) refdir stack (o :: rest) = .ok res ↔
+      ∃ expanded rest', processIncludes env f env.cwd stack src = .ok expanded ∧
+        processIncludes env (f + 1) refdir stack rest = .ok rest' ∧ res = expanded ++ rest' := by
+  rw [include_scope_inlines env f refdir stack o rest p text src ho hi hp]
+  exact splice_eq_ok_iff _ _ _
+
+/-- … and the error of the first failing part otherwise -/
+theorem include_scope_inlines_error (env : IncEnv) (f : Nat) (refdir : Path) (stack : List Path)
+    (o : Obj) (rest : List Obj) (p text : Str) (src : List Obj)
+    (ho : scopeTarget o = some (p, none)) (hi : env.imported p = some text)
+    (hp : parseObjs text = .ok src) (e : Err) :
+    processIncludes env (f + 1) refdir stack (o :: rest) = .error e ↔
+      processIncludes env f env.cwd stack src = .error e ∨
+      ∃ expanded, processIncludes env f env.cwd stack src = .ok expanded ∧
+        processIncludes env (f + 1) refdir stack rest = .error e := by
+  rw [include_scope_inlines env f refdir stack o rest p text src ho hi hp]
+  exact splice_eq_error_iff _ _ _
+
+/-- **Sub-path.**  With a third word `q` the spliced objects are `selectPath expanded q`
+    (= `scope.get(path=q)` on the *expanded* imported scope) when that selection is non-empty and
+    `$`-free; an empty selection is the error "path not found" at the statement's line. -/
+theorem include_scope_subpath (env : IncEnv) (f : Nat) (refdir : Path) (stack : List Path) (o : Obj)
+    (rest : List Obj) (p q text : Str) (src expanded : List Obj)
+    (ho : scopeTarget o = some (p, some q)) (hi : env.imported p = some text)
+    (hp : parseObjs text = .ok src)
+    (hexp : processIncludes env f env.cwd stack src = .ok expanded) :
+    (selectPath expanded q = [] →
+      processIncludes env (f + 1) refdir stack (o :: rest)
+        = .error (.runtime "include_scope_not_found" o.meta.line)) ∧
+    (selectPath expanded q ≠ [] → (selectPath expanded q).any (anyDollar 1000) = false →
+      processIncludes env (f + 1) refdir stack (o :: rest)
+        = splice (.ok (selectPath expanded q)) (processIncludes env (f + 1) refdir stack rest)) := by
+  rw [processIncludes_scope_cons env (f + 1) refdir stack o rest p (some q) ho,
+    includeScope_known env f stack p (some q) _ text src hi hp, hexp]
+  constructor
+  · intro h
+    simp [Except.bind, selectSub, h]
+  · intro h hd
+    have : (selectPath expanded q).isEmpty = false := by
+      cases hs : selectPath expanded q with
+      | nil => exact absurd hs h
+      | cons _ _ => rfl
+    simp [Except.bind, selectSub, this, hd]
+
+/-- … and an error while processing the imported scope's own includes propagates -/
+theorem include_scope_subpath_error (env : IncEnv) (f : Nat) (refdir : Path) (stack : List Path)
+    (o : Obj) (rest : List Obj) (p text : Str) (sub : Option Str) (src : List Obj) (e : Err)
+    (ho : scopeTarget o = some (p, sub)) (hi : env.imported p = some text)
+    (hp : parseObjs text = .ok src)
+    (hexp : processIncludes env f env.cwd stack src = .error e) :
+    processIncludes env (f + 1) refdir stack (o :: rest) = .error e := by
+  rw [processIncludes_scope_cons env (f + 1) refdir stack o rest p sub ho,
+    includeScope_known env f stack p sub _ text src hi hp, hexp]
+  rfl
+
+/-- **The imported scope's own includes are processed first.**  Whenever `include scope p q`
+    succeeds, the spliced objects are the selection of `q` in the *expanded* imported scope — the
+    outcome of processing `src`'s includes — not in `src` itself (see the example `envNested` below,
+    where `selectPath src q` is empty). -/
+theorem include_scope_expands_first (env : IncEnv) (f : Nat) (refdir : Path) (stack : List Path)
+    (o : Obj) (p q text : Str) (src res : List Obj)
+    (ho : scopeTarget o = some (p, some q)) (hi : env.imported p = some text)
+    (hp : parseObjs text = .ok src)
+    (hres : processIncludes env (f + 1) refdir stack [o] = .ok res) :
+    ∃ expanded, processIncludes env f env.cwd stack src = .ok expanded ∧
+      res = selectPath expanded q := by
+  rw [processIncludes_scope_cons env (f + 1) refdir stack o [] p (some q) ho,
+    includeScope_known env f stack p (some q) _ text src hi hp, processIncludes_nil] at hres
+  cases hx : processIncludes env f env.cwd stack src with
+  | error e => rw [hx] at hres; cases hres
+  | ok expanded =>
+    refine ⟨expanded, rfl, ?_⟩
+    rw [hx] at hres
+    simp only [Except.bind, selectSub] at hres
+    split at hres
+    · cases hres
+    · split at hres
+      · cases hres
+      · simp [splice, Except.map] at hres
+        exact hres.symm
+
+/-- **Reference directory (1).**  What an `include scope` statement contributes does not depend on
+    the reference directory of the list it stands in (the directory of the including file). -/
+theorem include_scope_refdir_indep (env : IncEnv) (fuel : Nat) (refdir refdir' : Path)
+    (stack : List Path) (o : Obj) (p : Str) (sub : Option Str) (ho : scopeTarget o = some (p, sub)) :
+    processIncludes env fuel refdir stack [o] = processIncludes env fuel refdir' stack [o] := by
+  rw [processIncludes_cons_splice, processIncludes_cons_splice, processIncludes_nil, processIncludes_nil,
+    includeHere_scope_refdir_indep env fuel refdir refdir' stack o p sub ho]
+
+/-- **Reference directory (2).**  A file name `n` inside the imported scope (include-free objects
+    `pre`, the statement `i`, then `post`) is resolved against `env.cwd`
+    (`reference_directory=None`), whatever `refdir` is. -/
+theorem include_scope_refdir (env : IncEnv) (f : Nat) (refdir : Path) (stack : List Path) (o : Obj)
+    (rest : List Obj) (p text : Str) (pre post : List Obj) (i : Obj) (n : Str)
+    (ho : scopeTarget o = some (p, none)) (hi : env.imported p = some text)
+    (hp : parseObjs text = .ok (pre ++ i :: post)) (hpre : NoInclude pre = true)
+    (hin : includeTarget i = some n) :
+    processIncludes env (f + 1) refdir stack (o :: rest) =
+      splice
+        (splice (.ok (resetTmpl pre))
+          (splice (expandFile env f (resolvePath env.cwd n) stack)
+            (processIncludes env f env.cwd stack post)))
+        (processIncludes env (f + 1) refdir stack rest) := by
+  rw [include_scope_inlines env f refdir stack o rest p text _ ho hi hp,
+    processIncludes_split_splice env f env.cwd stack pre post i n hpre hin]
+
+/-- **A file cycle through an imported scope is detected.**  File `a` (not yet being expanded)
+    includes the scope `p`, whose text includes a file that resolves — against `env.cwd` — to `a`
+    itself or to a file further up the stack: the cycle error (the imported scope is processed with
+    the same include stack, on which `a` has been pushed). -/
+theorem file_cycle_through_scope_detected (env : IncEnv) (f : Nat) (a q : Path) (stack : List Path)
+    (t ts tq : Str) (pre post pre' post' oq : List Obj) (o i : Obj) (p : Str) (sub : Option Str) (n : Str)
+    (hr : env.fs.read a = some t) (hp : parseObjs t = .ok (pre ++ o :: post)) (ha : a ∉ stack)
+    (hpre : NoInclude pre = true) (ho : scopeTarget o = some (p, sub))
+    (his : env.imported p = some ts) (hps : parseObjs ts = .ok (pre' ++ i :: post'))
+    (hpre' : NoInclude pre' = true) (hi : includeTarget i = some n)
+    (hq : resolvePath env.cwd n = q) (hmem : q ∈ stack ++ [a])
+    (hrq : env.fs.read q = some tq) (hpq : parseObjs tq = .ok oq) :
+    expandFile env (f + 3) a stack = .error (.runtime "include_cycle" none) :=
+  expandFile_back_edge_through_scope env f a q stack t ts tq pre post pre' post' oq o i p sub n
+    hr hp ha hpre ho his hps hpre' hi hq hmem hrq hpq
+
+/-- the two-step chain `a → scope p → a` -/
+theorem file_scope_file_cycle (env : IncEnv) (f : Nat) (a : Path) (t ts : Str)
+    (pre post pre' post' : List Obj) (o i : Obj) (p : Str) (sub : Option Str) (n : Str)
+    (hr : env.fs.read a = some t) (hp : parseObjs t = .ok (pre ++ o :: post))
+    (hpre : NoInclude pre = true) (ho : scopeTarget o = some (p, sub))
+    (his : env.imported p = some ts) (hps : parseObjs ts = .ok (pre' ++ i :: post'))
+    (hpre' : NoInclude pre' = true) (hi : includeTarget i = some n)
+    (hq : resolvePath env.cwd n = a) :
+    expandFile env (f + 3) a [] = .error (.runtime "include_cycle" none) :=
+  file_cycle_through_scope_detected env f a a [] t ts t pre post pre' post' _ o i p sub n
+    hr hp (by simp) hpre ho his hps hpre' hi hq (by simp) hr hp
 
 /-! ### concrete instances (checked by the kernel) -/
 
@@ -211,7 +439,7 @@ def pA : Path := ["d".toList, "a".toList]
 def pB : Path := ["d".toList, "b".toList]
 
 /-- `/d/a` includes itself; `/d/b` is unrelated -/
-def fsSelf : FS := [(pA, "x = 1\ninclude file a\n".toList), (pB, "y = 2\n".toList)]
+def fsSelf : IncEnv := { fs := [(pA, "x = 1\ninclude file a\n".toList), (pB, "y = 2\n".toList)] }
 
 def objX : Obj := .defn { name := "x".toList, id := some 1, line := some 1 } [⟨"1".toList, none, some 1⟩]
 def incAt (id line : Nat) (name : String) : Obj :=
@@ -223,16 +451,16 @@ theorem parse_selfA : parseObjs "x = 1\ninclude file a\n".toList = .ok ([objX] +
 
 /-- a self-including file is reported as a cycle -/
 example : expand fsSelf pA = .error (.runtime "include_cycle" none) :=
-  back_edge_is_cycle_error fsSelf 1 pA pA [] _ _ [objX] [] _ (incAt 2 2 "a") "a".toList
+  back_edge_is_cycle_error fsSelf 2 pA pA [] _ _ [objX] [] _ (incAt 2 2 "a") "a".toList
     rfl parse_selfA (by simp) rfl rfl rfl (by simp) rfl parse_selfA
 
 /-- the same through the graph view: `/d/a` includes `/d/a` -/
 example : IncWalk fsSelf pA [] pA [pA] ∧ pA ∈ [pA] :=
-  ⟨.step ⟨_, _, "a".toList, rfl, parse_selfA, by simp [includeTargets, includeTargetsObj, objX, incAt, includeTarget, containsDollar, lower]; decide, rfl⟩
+  ⟨.step (Includes.direct _ _ "a".toList rfl parse_selfA (by simp [includeTargets, includeTargetsObj, objX, incAt, includeTarget, containsDollar, lower]; decide) rfl)
       (.here _ _), by simp⟩
 
 /-- a two-file cycle `/d/a → /d/b → /d/a` -/
-def fsTwo : FS := [(pA, "include file b\n".toList), (pB, "include file ../d/a\n".toList)]
+def fsTwo : IncEnv := { fs := [(pA, "include file b\n".toList), (pB, "include file ../d/a\n".toList)] }
 
 theorem parse_twoA : parseObjs "include file b\n".toList = .ok ([] ++ incAt 1 1 "b" :: []) := by rfl
 theorem parse_twoB : parseObjs "include file ../d/a\n".toList = .ok ([] ++ incAt 1 1 "../d/a" :: []) := by rfl
@@ -241,16 +469,19 @@ example : expand fsTwo pA = .error (.runtime "include_cycle" none) := by
   have hb : expandFile fsTwo 2 pB ([] ++ [pA]) = .error (.runtime "include_cycle" none) :=
     back_edge_is_cycle_error fsTwo 0 pB pA [pA] _ _ [] [] _ (incAt 1 1 "../d/a") "../d/a".toList
       rfl parse_twoB (by decide) rfl rfl (by decide) (by simp) rfl parse_twoA
-  have := include_inlines fsTwo 2 pA [] _ [] [] (incAt 1 1 "b") "b".toList rfl parse_twoA (by simp) rfl rfl
+  have := include_inlines fsTwo 3 pA [] _ [] [] (incAt 1 1 "b") "b".toList rfl parse_twoA (by simp) rfl rfl
   have hres : resolvePath pA.dropLast "b".toList = pB := by decide
-  rw [hres, hb] at this
+  have hb3 : expandFile fsTwo 3 pB ([] ++ [pA]) = .error (.runtime "include_cycle" none) :=
+    back_edge_is_cycle_error fsTwo 1 pB pA [pA] _ _ [] [] _ (incAt 1 1 "../d/a") "../d/a".toList
+      rfl parse_twoB (by decide) rfl rfl (by decide) (by simp) rfl parse_twoA
+  rw [hres, hb3] at this
   exact this
 
 /-- a diamond: `/d/r` includes `/d/l` twice -/
 def pR : Path := ["d".toList, "r".toList]
 def pL : Path := ["d".toList, "l".toList]
-def fsDiamond : FS :=
-  [(pR, "include file l\ninclude file ./l\n".toList), (pL, "x = 1\ns { y = 2 }\n".toList)]
+def fsDiamond : IncEnv :=
+  { fs := [(pR, "include file l\ninclude file ./l\n".toList), (pL, "x = 1\ns { y = 2 }\n".toList)] }
 
 def leafObjs : List Obj :=
   [objX,
@@ -264,8 +495,8 @@ example : expand fsDiamond pR = .ok (leafObjs ++ leafObjs) := by
   rw [e] at h
   exact h
 
-/-- all three file systems satisfy the parser hypotheses of the theorems above -/
-theorem parseFuelOK_fsDiamond : ParseFuelOK fsDiamond := by
+/-- the file system satisfies the parser hypothesis of the theorems above -/
+theorem parseFuelOK_fsDiamond : ParseFuelOK fsDiamond.fs := by
   intro pt h
   simp only [fsDiamond, List.mem_cons, List.mem_nil_iff, or_false] at h
   rcases h with h | h <;> subst h
@@ -275,11 +506,12 @@ theorem parseFuelOK_fsDiamond : ParseFuelOK fsDiamond := by
   · have : parseObjs (pL, "x = 1\ns { y = 2 }\n".toList).2 = .ok leafObjs := by rfl
     rw [this]; simp
 
-example : expand fsDiamond pR ≠ .error .outOfFuel := expand_total fsDiamond parseFuelOK_fsDiamond pR
+example : expand fsDiamond pR ≠ .error .outOfFuel :=
+  expand_total_files fsDiamond rfl parseFuelOK_fsDiamond pR
 
-/-- the bound of `expand_never_out_of_fuel` is sharp: one file, fuel 1 (= number of files), and the
-    file includes something: the model gives up -/
-example : expandFile [(pA, "include file b\n".toList)] 1 pA [] = .error .outOfFuel := by
+/-- the bound of `expand_never_out_of_fuel_files` is sharp: one file, fuel 1 (= number of files), and
+    the file includes something: the model gives up -/
+example : expandFile { fs := [(pA, "include file b\n".toList)] } 1 pA [] = .error .outOfFuel := by
   rw [expandFile_fresh _ 0 pA [] _ _ (by simp) rfl parse_twoA]
   show processIncludes _ 0 _ _ (incAt 1 1 "b" :: []) = _
   rw [processIncludes_cons]
@@ -287,30 +519,30 @@ example : expandFile [(pA, "include file b\n".toList)] 1 pA [] = .error .outOfFu
 
 /-- names are resolved against the directory of the *including* file: `/d/r` includes `sub/m`, and
     `/d/sub/m` includes `leaf`, which is `/d/sub/leaf` (not `/d/leaf`, which does not exist) -/
-def fsNested : FS :=
-  [(pR, "include file sub/m\n".toList),
-   (["d".toList, "sub".toList, "m".toList], "include file leaf\n".toList),
-   (["d".toList, "sub".toList, "leaf".toList], "x = 1\n".toList)]
+def fsNested : IncEnv :=
+  { fs := [(pR, "include file sub/m\n".toList),
+           (["d".toList, "sub".toList, "m".toList], "include file leaf\n".toList),
+           (["d".toList, "sub".toList, "leaf".toList], "x = 1\n".toList)] }
 
 example : expand fsNested pR = .ok [objX] := by
-  have hleaf : expandFile fsNested 2 ["d".toList, "sub".toList, "leaf".toList]
+  have hleaf : expandFile fsNested 3 ["d".toList, "sub".toList, "leaf".toList]
       ([] ++ [pR] ++ [["d".toList, "sub".toList, "m".toList]]) = .ok [objX] := by
-    rw [expandFile_fresh _ 1 _ _ _ [objX] (by decide) rfl (by rfl)]
+    rw [expandFile_fresh _ 2 _ _ _ [objX] (by decide) rfl (by rfl)]
     exact Phil.no_include_identity _ _ _ _ _ rfl
-  have hm : expandFile fsNested 3 ["d".toList, "sub".toList, "m".toList] ([] ++ [pR]) = .ok [objX] := by
-    have := include_inlines fsNested 2 ["d".toList, "sub".toList, "m".toList] ([] ++ [pR]) _ [] []
+  have hm : expandFile fsNested 4 ["d".toList, "sub".toList, "m".toList] ([] ++ [pR]) = .ok [objX] := by
+    have := include_inlines fsNested 3 ["d".toList, "sub".toList, "m".toList] ([] ++ [pR]) _ [] []
       (incAt 1 1 "leaf") "leaf".toList rfl (by rfl) (by decide) rfl rfl
     have hres : resolvePath (["d".toList, "sub".toList, "m".toList] : Path).dropLast "leaf".toList
         = ["d".toList, "sub".toList, "leaf".toList] := by decide
     rw [hres] at this
     rw [this, hleaf, processIncludes_nil]
     rfl
-  have := include_inlines fsNested 3 pR [] _ [] [] (incAt 1 1 "sub/m") "sub/m".toList rfl (by rfl)
+  have := include_inlines fsNested 4 pR [] _ [] [] (incAt 1 1 "sub/m") "sub/m".toList rfl (by rfl)
     (by simp) rfl rfl
   have hres : resolvePath pR.dropLast "sub/m".toList = ["d".toList, "sub".toList, "m".toList] := by decide
   rw [hres] at this
   unfold expand
-  show expandFile fsNested 4 pR [] = _
+  show expandFile fsNested 5 pR [] = _
   rw [this, hm, processIncludes_nil]
   rfl
 
@@ -322,4 +554,242 @@ example : resolvePath ["a".toList, "b".toList] "x.phil".toList
     = ["a".toList, "b".toList, "x.phil".toList] :=
   resolvePath_relative _ _ (by decide) (by decide) (by decide) (by decide)
 
+/-! #### `include scope` -/
+
+def scopeAt (id line : Nat) (p : String) : Obj :=
+  .defn { name := "include".toList, id := some id, line := some line }
+    [⟨"scope".toList, none, some line⟩, ⟨p.toList, none, some line⟩]
+def scopeSubAt (id line : Nat) (p q : String) : Obj :=
+  .defn { name := "include".toList, id := some id, line := some line }
+    [⟨"scope".toList, none, some line⟩, ⟨p.toList, none, some line⟩, ⟨q.toList, none, some line⟩]
+
+theorem scope_no_dollar : "scope".toList.contains '$' = false := by decide
+theorem scopeTarget_scopeAt (id line : Nat) (p : String) (h : p.toList.contains '$' = false) :
+    scopeTarget (scopeAt id line p) = some (p.toList, none) :=
+  scopeTarget_two_words _ _ _ rfl rfl
+    (by simp only [containsDollar, List.any_cons, List.any_nil, h, scope_no_dollar]; rfl) rfl
+theorem scopeTarget_scopeSubAt (id line : Nat) (p q : String) (h : p.toList.contains '$' = false)
+    (h' : q.toList.contains '$' = false) :
+    scopeTarget (scopeSubAt id line p q) = some (p.toList, some q.toList) :=
+  scopeTarget_three_words _ _ _ _ rfl rfl
+    (by simp only [containsDollar, List.any_cons, List.any_nil, h, h', scope_no_dollar]; rfl) rfl
+
+/-- the scope `s { y = 2 }` as parsed from the import `m.inner` -/
+def scopeS : Obj :=
+  .scope { name := "s".toList, id := some 1, line := some 1 }
+    [.defn { name := "y".toList, id := some 2, line := some 2 } [⟨"2".toList, none, some 2⟩]]
+def objZ : Obj := .defn { name := "z".toList, id := some 2, line := some 2 } [⟨"3".toList, none, some 2⟩]
+
+/-- `m.outer` is nothing but `include scope m.inner`; `m.inner` holds `s { y = 2 }` -/
+def envNested : IncEnv :=
+  { fs := [(pR, "include scope m.outer s\nz = 3\n".toList)],
+    imports := [("m.outer".toList, "include scope m.inner\n".toList),
+                ("m.inner".toList, "s {\n  y = 2\n}\n".toList)],
+    cwd := ["d".toList] }
+
+theorem parse_outer : parseObjs "include scope m.inner\n".toList = .ok [scopeAt 1 1 "m.inner"] := by rfl
+theorem parse_inner : parseObjs "s {\n  y = 2\n}\n".toList = .ok [scopeS] := by rfl
+theorem parse_nestedR :
+    parseObjs "include scope m.outer s\nz = 3\n".toList = .ok [scopeSubAt 1 1 "m.outer" "s", objZ] := by rfl
+
+/-- `include_scope_inlines` at work: `include scope m.inner` is replaced by the objects of `m.inner` -/
+theorem expanded_outer (f : Nat) (refdir : Path) (stack : List Path) :
+    processIncludes envNested (f + 1) refdir stack [scopeAt 1 1 "m.inner"] = .ok [scopeS] := by
+  rw [include_scope_inlines envNested f refdir stack _ [] _ _ _ (scopeTarget_scopeAt 1 1 "m.inner" (by decide))
+    rfl parse_inner, processIncludes_nil,
+    Phil.no_include_identity envNested f _ _ [scopeS] rfl]
+  rfl
+
+/-- **the selection is taken after expansion**: in the text of `m.outer` there is no `s` at all … -/
+example : selectPath [scopeAt 1 1 "m.inner"] "s".toList = [] := by decide
+/-- … but in its expansion there is -/
+theorem select_s : selectPath [scopeS] "s".toList = [scopeS] := by rfl
+
+/-- … and `include scope m.outer s` splices it (`include_scope_subpath`, non-empty case) -/
+theorem nested_subpath (f : Nat) (refdir : Path) (stack : List Path) :
+    processIncludes envNested (f + 2) refdir stack [scopeSubAt 1 1 "m.outer" "s", objZ]
+      = .ok [scopeS, objZ] := by
+  have h := (include_scope_subpath envNested (f + 1) refdir stack _ [objZ] _ _ _ _ [scopeS]
+    (scopeTarget_scopeSubAt 1 1 "m.outer" "s" (by decide) (by decide)) rfl parse_outer
+    (expanded_outer f _ stack)).2 (by rw [select_s]; simp) (by rw [select_s]; rfl)
+  rw [h, select_s, Phil.no_include_identity envNested _ _ _ [objZ] rfl]
+  rfl
+
+example : expand envNested pR = .ok [scopeS, objZ] := by
+  unfold expand
+  show expandFile envNested 7 pR [] = _
+  rw [expandFile_fresh envNested 6 pR [] _ _ (by simp) rfl parse_nestedR]
+  exact nested_subpath 4 _ _
+
+/-- `include_scope_expands_first` applies to it: the spliced objects *are* the selection from the
+    expansion of `m.outer` (its text itself has no `s`, see above) -/
+example : ∃ expanded, processIncludes envNested 1 envNested.cwd [] [scopeAt 1 1 "m.inner"] = .ok expanded ∧
+    [scopeS] = selectPath expanded "s".toList := by
+  have h := (include_scope_subpath envNested 1 [] [] _ [] _ _ _ _ [scopeS]
+    (scopeTarget_scopeSubAt 1 1 "m.outer" "s" (by decide) (by decide)) rfl parse_outer
+    (expanded_outer 0 _ [])).2 (by rw [select_s]; simp) (by rw [select_s]; rfl)
+  rw [select_s, processIncludes_nil] at h
+  exact include_scope_expands_first envNested 1 [] [] (scopeSubAt 1 1 "m.outer" "s") _ _ _ _ [scopeS]
+    (scopeTarget_scopeSubAt 1 1 "m.outer" "s" (by decide) (by decide)) rfl parse_outer h
+
+/-- `include_scope_subpath`, empty case: a path that selects nothing is an error at the statement's line -/
+example (f : Nat) (refdir : Path) (stack : List Path) :
+    processIncludes envNested (f + 2) refdir stack [scopeSubAt 1 1 "m.outer" "zz"]
+      = .error (.runtime "include_scope_not_found" (some 1)) :=
+  (include_scope_subpath envNested (f + 1) refdir stack _ [] _ _ _ _ [scopeS]
+    (scopeTarget_scopeSubAt 1 1 "m.outer" "zz" (by decide) (by decide)) rfl parse_outer (expanded_outer f _ stack)).1 (by decide)
+
+/-- the imports of `envNested` are ranked by position (`m.outer` refers to the later `m.inner`), so
+    `expand_total` applies -/
+theorem importsRanked_envNested : ImportsRanked envNested := importsRanked_of_check envNested (by decide +kernel)
+
+example : expand envNested pR ≠ .error .outOfFuel := by
+  apply expand_total envNested ?_ ?_ importsRanked_envNested
+  · intro pt h
+    simp only [envNested, List.mem_cons, List.mem_nil_iff, or_false] at h
+    subst h
+    show parseObjs "include scope m.outer s\nz = 3\n".toList ≠ _
+    rw [parse_nestedR]; simp
+  · intro pt h
+    simp only [envNested, List.mem_cons, List.mem_nil_iff, or_false] at h
+    rcases h with h | h <;> subst h
+    · show parseObjs "include scope m.inner\n".toList ≠ _
+      rw [parse_outer]; simp
+    · show parseObjs "s {\n  y = 2\n}\n".toList ≠ _
+      rw [parse_inner]; simp
+
+/-- **reference directory**: `/d/r` includes the scope `m.lib`, whose text includes the relative name
+    `leaf`: it is `/w/leaf` (current directory `/w`), not `/d/leaf` next to the including file -/
+def envCwd : IncEnv :=
+  { fs := [(pR, "include scope m.lib\n".toList),
+           (["d".toList, "leaf".toList], "y = 2\n".toList),
+           (["w".toList, "leaf".toList], "x = 1\n".toList)],
+    imports := [("m.lib".toList, "include file leaf\n".toList)],
+    cwd := ["w".toList] }
+
+theorem parse_libR : parseObjs "include scope m.lib\n".toList = .ok ([] ++ scopeAt 1 1 "m.lib" :: []) := by rfl
+theorem parse_lib : parseObjs "include file leaf\n".toList = .ok ([] ++ incAt 1 1 "leaf" :: []) := by rfl
+
+example : expand envCwd pR = .ok [objX] := by
+  unfold expand
+  show expandFile envCwd 9 pR [] = _
+  rw [expandFile_fresh envCwd 8 pR [] _ _ (by simp) rfl parse_libR]
+  show processIncludes envCwd (7 + 1) _ _ (scopeAt 1 1 "m.lib" :: []) = _
+  rw [include_scope_refdir envCwd 7 _ _ _ [] _ _ [] [] (incAt 1 1 "leaf") "leaf".toList
+    (scopeTarget_scopeAt 1 1 "m.lib" (by decide)) rfl parse_lib rfl rfl]
+  have hres : resolvePath envCwd.cwd "leaf".toList = ["w".toList, "leaf".toList] := by decide
+  rw [hres, expandFile_fresh envCwd 6 _ _ _ [objX] (by decide) rfl (by rfl),
+    Phil.no_include_identity envCwd 6 _ _ [objX] rfl, processIncludes_nil, processIncludes_nil]
+  rfl
+
+/-- **a file cycle through an imported scope**: `/d/a` includes the scope `m.back`, whose text
+    includes `a` — with current directory `/d` that is `/d/a` again -/
+def envBack : IncEnv :=
+  { fs := [(pA, "include scope m.back\n".toList)],
+    imports := [("m.back".toList, "include file a\n".toList)],
+    cwd := ["d".toList] }
+
+theorem parse_backA : parseObjs "include scope m.back\n".toList = .ok ([] ++ scopeAt 1 1 "m.back" :: []) := by rfl
+theorem parse_back : parseObjs "include file a\n".toList = .ok ([] ++ incAt 1 1 "a" :: []) := by rfl
+
+example : expand envBack pA = .error (.runtime "include_cycle" none) :=
+  file_scope_file_cycle envBack 2 pA _ _ [] [] [] [] (scopeAt 1 1 "m.back") (incAt 1 1 "a") _ none
+    "a".toList rfl parse_backA rfl (scopeTarget_scopeAt 1 1 "m.back" (by decide)) rfl parse_back rfl rfl (by decide)
+
+/-- the same through the graph view: `/d/a` includes `/d/a`, by way of the scope `m.back` -/
+example : IncWalk envBack pA [] pA [pA] ∧ pA ∈ [pA] :=
+  ⟨.step ⟨_, _, rfl, parse_backA,
+      .scope "m.back".toList _ _ (by decide) rfl parse_back
+        (.file "a".toList (by simp [includeTargets, includeTargetsObj, incAt, includeTarget, containsDollar, lower]; decide)
+          (by decide))⟩
+      (.here _ _), by simp⟩
+
+/-- **`ImportsRanked` is needed**: an imported scope that includes itself — Python recurses without
+    bound (no cycle detection for scopes), the model gives up -/
+def envLoop : IncEnv :=
+  { fs := [(pA, "include scope m.loop\n".toList)],
+    imports := [("m.loop".toList, "include scope m.loop\n".toList)] }
+
+example : importsRankedB envLoop = false := by decide +kernel
+
+theorem parse_loop : parseObjs "include scope m.loop\n".toList = .ok ([] ++ scopeAt 1 1 "m.loop" :: []) := by rfl
+
+/-- whatever the fuel, the statement `include scope m.loop` exhausts it -/
+theorem loop_out_of_fuel (f : Nat) (refdir : Path) (stack : List Path) :
+    processIncludes envLoop f refdir stack [scopeAt 1 1 "m.loop"] = .error .outOfFuel := by
+  induction f generalizing refdir with
+  | zero =>
+    rw [processIncludes_cons_splice,
+      includeHere_scope envLoop 0 refdir stack _ _ _ (scopeTarget_scopeAt 1 1 "m.loop" (by decide))]
+    rfl
+  | succ f ih =>
+    rw [include_scope_inlines envLoop f refdir stack _ [] _ _ _
+      (scopeTarget_scopeAt 1 1 "m.loop" (by decide)) rfl parse_loop]
+    show splice (processIncludes envLoop f envLoop.cwd stack [scopeAt 1 1 "m.loop"]) _ = _
+    rw [ih]; rfl
+
+example : expand envLoop pA = .error .outOfFuel := by
+  unfold expand
+  rw [expandFile_fresh envLoop _ pA [] _ _ (by simp) rfl parse_loop]
+  exact loop_out_of_fuel _ _ _
+
 end Phil.C13
+
+/-! ### axioms -/
+#print axioms Phil.C13.cycle_refused
+#print axioms Phil.C13.back_edge_is_cycle_error
+#print axioms Phil.C13.nodup_subset_length_le_distinct
+#print axioms Phil.C13.expand_never_out_of_fuel
+#print axioms Phil.C13.processIncludes_never_out_of_fuel
+#print axioms Phil.C13.expand_total
+#print axioms Phil.C13.importsRanked_of_check
+#print axioms Phil.C13.expand_never_out_of_fuel_files
+#print axioms Phil.C13.processIncludes_never_out_of_fuel_files
+#print axioms Phil.C13.expand_total_files
+#print axioms Phil.C13.no_include_identity
+#print axioms Phil.C13.no_include_identity_tmpl0
+#print axioms Phil.C13.include_inlines
+#print axioms Phil.C13.processIncludes_append
+#print axioms Phil.C13.diamond_ok
+#print axioms Phil.C13.resolvePath_relative
+#print axioms Phil.C13.resolvePath_relative_components
+#print axioms Phil.C13.resolvePath_absolute
+#print axioms Phil.C13.resolvePath_absolute_indep
+#print axioms Phil.C13.normComponents_dotdot
+#print axioms Phil.C13.cycle_error_sound
+#print axioms Phil.C13.cycle_error_sound_gen
+#print axioms Phil.C13.ok_no_cycle
+#print axioms Phil.C13.cycle_detected
+#print axioms Phil.C13.cycle_detected_files
+#print axioms Phil.C13.scopeTarget_two_words
+#print axioms Phil.C13.scopeTarget_three_words
+#print axioms Phil.C13.include_scope_inlines
+#print axioms Phil.C13.include_scope_inlines_ok
+#print axioms Phil.C13.include_scope_inlines_error
+#print axioms Phil.C13.include_scope_subpath
+#print axioms Phil.C13.include_scope_subpath_error
+#print axioms Phil.C13.include_scope_expands_first
+#print axioms Phil.C13.include_scope_refdir_indep
+#print axioms Phil.C13.include_scope_refdir
+#print axioms Phil.C13.file_cycle_through_scope_detected
+#print axioms Phil.C13.file_scope_file_cycle
+#print axioms Phil.C13.parse_selfA
+#print axioms Phil.C13.parse_twoA
+#print axioms Phil.C13.parse_twoB
+#print axioms Phil.C13.parseFuelOK_fsDiamond
+#print axioms Phil.C13.scope_no_dollar
+#print axioms Phil.C13.scopeTarget_scopeAt
+#print axioms Phil.C13.scopeTarget_scopeSubAt
+#print axioms Phil.C13.parse_outer
+#print axioms Phil.C13.parse_inner
+#print axioms Phil.C13.parse_nestedR
+#print axioms Phil.C13.expanded_outer
+#print axioms Phil.C13.select_s
+#print axioms Phil.C13.nested_subpath
+#print axioms Phil.C13.importsRanked_envNested
+#print axioms Phil.C13.parse_libR
+#print axioms Phil.C13.parse_lib
+#print axioms Phil.C13.parse_backA
+#print axioms Phil.C13.parse_back
+#print axioms Phil.C13.parse_loop
+#print axioms Phil.C13.loop_out_of_fuel
